@@ -125,6 +125,29 @@ func init() {
 			c.P["stick"] = int64(r.IntN(100))
 			c.P["yield"] = int64([]int{0, 0, 5, 20, 50}[r.IntN(5)])
 			c.Progs = genClientPrograms(r, relax)
+			burst := 0.04
+			if relax["threads"] {
+				burst = 0.4 // free-running mode: real parallelism inside the index store and the drive needs volume
+			}
+			if r.Float64() < burst {
+				// burst template: 3-8 callers, each below its own directory, create / write / close /
+				// read back several files: no two calls conflict, so every call must succeed
+				c.Progs, c.Ops = nil, nil
+				nc := 3 + r.IntN(6)
+				for ci := 0; ci < nc; ci++ {
+					own := fmt.Sprintf("/c%d", ci)
+					c.Ops = append(c.Ops, Op{K: "mkdir", P: own, M: 0o755})
+					var ops []Op
+					for k := 0; k < 3+r.IntN(5); k++ {
+						h := ci*100 + k + 1
+						p := fmt.Sprintf("%s/f%d", own, k)
+						ops = append(ops, Op{K: "create", P: p, H: h}, Op{K: "h.write", H: h, D: &Data{Len: 1 + r.IntN(900), Kind: "text", Tag: uint32(ci)<<16 | uint32(k)}}, Op{K: "h.close", H: h},
+							Op{K: "open", P: p, H: h}, Op{K: "h.read", H: h, N: 1 << 16}, Op{K: "h.close", H: h})
+					}
+					c.Progs = append(c.Progs, ops)
+				}
+				return c
+			}
 			if t := r.Float64(); t < 0.12 {
 				// readers template: several callers read existing files through their own
 				// handles at the same time (restore goroutines overlap), one caller writes
@@ -219,14 +242,15 @@ func evalC11(t *testing.T, c *Case, st *Stats, relax Relax) *Violation {
 			finished = true
 			return
 		}
+		shared := &SharedHandles{H: map[int]afero.File{}}
 		setup := NewExec(stk.FS, s)
+		setup.Shared = shared // a shared handle opened during the setup stays open for the clients
 		for _, op := range c.Ops {
 			call := seq.Add(1)
 			res := setup.Do(op)
 			hist = append(hist, histEntry{Client: len(c.Progs) + 1, Op: op, Res: res, Call: call, Ret: seq.Add(1)})
 		}
 		setup.CloseAll()
-		shared := &SharedHandles{H: map[int]afero.File{}}
 		results := make([][]histEntry, len(c.Progs))
 		var tasks []*Task
 		for ci, prog := range c.Progs {
@@ -295,11 +319,47 @@ func evalC11(t *testing.T, c *Case, st *Stats, relax Relax) *Violation {
 		return rebuildV
 	}
 	// linearizability (outside the bubble: porcupine's timeout uses the real clock)
+	if v := judgeLinearizable(c.Prop, hist, false, st); v != nil {
+		return v
+	}
+	shared := 0
+	for _, p := range c.Progs {
+		for _, o := range p {
+			if strings.HasPrefix(o.P, "/s") || strings.HasPrefix(o.P, "/t") {
+				shared++
+				break
+			}
+		}
+	}
+	if out.Switches > len(c.Progs) && shared >= 2 {
+		var sb strings.Builder
+		for _, p := range c.Progs {
+			sb.WriteString(opKinds(p) + ";")
+		}
+		st.Nontrivial(fmt.Sprintf("%s|%x", sb.String(), out.SwitchHash))
+		var ps strings.Builder
+		for i, p := range c.Progs {
+			fmt.Fprintf(&ps, "client %d:\n%s", i+1, opsString(p))
+		}
+		st.Sample(fmt.Sprintf("cfg=%s stick=%d%% yield=%d%% switches=%d\n%s", c.Cfg, c.Param("stick", 0), c.Param("yield", 0), out.Switches, ps.String()))
+	}
+	return nil
+}
+
+// judgeLinearizable checks a recorded history (calls stamped with a global event
+// sequence number at invocation and return) against the reference model.
+// noClock: the history was recorded under the real clock (free-running mode), so
+// modification times set by "now" are unspecified.
+func judgeLinearizable(prop string, hist []histEntry, noClock bool, st *Stats) *Violation {
 	now := int64(946684800) * 1e9
 	model := porcupine.Model{
 		Init: func() interface{} {
 			r := NewRefFS(func() int64 { return now }, 0o777)
 			r.UID, r.GID = os.Getuid(), os.Getgid()
+			if noClock {
+				r.NoClock = true
+				r.root.mtimeOK = false
+			}
 			return r
 		},
 		Step: func(state, input, output interface{}) (bool, interface{}) {
@@ -311,6 +371,11 @@ func evalC11(t *testing.T, c *Case, st *Stats, relax Relax) *Violation {
 				}
 				rt, mask := ref.Tree()
 				return len(CompareTree(e.Final, rt, mask)) == 0, ref
+			}
+			if e.Res.Class == "nohandle" {
+				// the harness had no such handle (yet, or any more) when the call was issued: it
+				// never reached the filesystem and is not an event of the history
+				return true, ref
 			}
 			exp := ref.Apply(e.Op)
 			id, _ := CompareRes(e.Op, e.Res, exp)
@@ -336,30 +401,9 @@ func evalC11(t *testing.T, c *Case, st *Stats, relax Relax) *Violation {
 			}
 			fmt.Fprintf(&sb, "[%d-%d] c%d %s -> %s %s n=%d %s\n", e.Call, e.Ret, e.Client+1, e.Op, e.Res.Class, e.Res.Err, e.Res.N, strings.Join(e.Res.Names, ","))
 		}
-		return &Violation{Prop: c.Prop, Oracle: "not-linearizable", Detail: "no sequential order of the calls that respects their real-time order explains the results and the final tree:\n" + sb.String()}
+		return &Violation{Prop: prop, Oracle: "not-linearizable", Detail: "no sequential order of the calls that respects their real-time order explains the results and the final tree:\n" + sb.String()}
 	default:
 		st.Add("linearizable_histories", 1)
-	}
-	shared := 0
-	for _, p := range c.Progs {
-		for _, o := range p {
-			if strings.HasPrefix(o.P, "/s") || strings.HasPrefix(o.P, "/t") {
-				shared++
-				break
-			}
-		}
-	}
-	if out.Switches > len(c.Progs) && shared >= 2 {
-		var sb strings.Builder
-		for _, p := range c.Progs {
-			sb.WriteString(opKinds(p) + ";")
-		}
-		st.Nontrivial(fmt.Sprintf("%s|%x", sb.String(), out.SwitchHash))
-		var ps strings.Builder
-		for i, p := range c.Progs {
-			fmt.Fprintf(&ps, "client %d:\n%s", i+1, opsString(p))
-		}
-		st.Sample(fmt.Sprintf("cfg=%s stick=%d%% yield=%d%% switches=%d\n%s", c.Cfg, c.Param("stick", 0), c.Param("yield", 0), out.Switches, ps.String()))
 	}
 	return nil
 }
